@@ -61,7 +61,13 @@ func (c *c14) genAssertion(ch *kernel.Chooser) presentation {
 			kid = "other-kid"
 			label += "+wrong-kid"
 		case 4:
-			aud = [][]string{{"https://other.sim"}, {}, {w.Issuer + "/oauth/token"}, {"https://other.sim", w.Issuer}}[ch.Int(4)]
+			auds := [][]string{{"https://other.sim"}, {}, {w.Issuer + "/oauth/token"}, {"https://other.sim", w.Issuer}}
+			for _, other := range w.Issuers {
+				if other != w.Issuer { // made for another tenant of the same provider: not this issuer
+					auds = append(auds, []string{other}, []string{other})
+				}
+			}
+			aud = auds[ch.Int(len(auds))]
 			label += fmt.Sprintf("+aud%v", aud)
 		case 5:
 			iat = now.Add([]time.Duration{-time.Hour - 10*time.Second, -time.Hour + 10*time.Second, -2 * time.Hour, -time.Hour - 1*time.Second}[ch.Int(4)])
@@ -420,7 +426,12 @@ func RunC14(t *testing.T, spec kernel.Spec) *kernel.Outcome {
 	o := inBubble(t, spec, func(o *kernel.Outcome, tape *kernel.Tape) {
 		cfg := tape.Sub("cfg2")
 		caps := world.Caps{ClientCredentials: cfg.Bool(1, 2), TokenExchange: cfg.Bool(2, 3), Device: true, FromRequest: cfg.Bool(1, 3)}
-		w, err := world.NewStd(o, tape, world.StdOptions{Router: spec.Params["router"], ForceCaps: &caps, AllGrants: true, Algs: []int{0}, ForceConfig: func(c *op.Config) {
+		// in half of the worlds one provider serves two or three issuers (by Host, or behind a proxy by Forwarded header)
+		tenants := 1
+		if tc := tape.Sub("cfg-tenants"); tc.Bool(1, 2) {
+			tenants = 2 + tc.Int(2)
+		}
+		w, err := world.NewStd(o, tape, world.StdOptions{Router: spec.Params["router"], ForceCaps: &caps, AllGrants: true, Algs: []int{0}, Tenants: tenants, ForceConfig: func(c *op.Config) {
 			c.AuthMethodPrivateKeyJWT = cfg.Bool(4, 5)
 			c.GrantTypeRefreshToken = true
 		}})
@@ -433,6 +444,10 @@ func RunC14(t *testing.T, spec kernel.Spec) *kernel.Outcome {
 		n := 40 + tape.Sub("cfg").Int(40)
 		steps(o, tape, n, func(i int, ch *kernel.Chooser) string {
 			c.step = i
+			if len(w.Issuers) > 1 {
+				w.UseIssuer(ch.Int(len(w.Issuers))) // every request of this step goes to this tenant
+				o.Probe("multi-tenant-steps")
+			}
 			if i == 0 {
 				c.step = 0
 				// tokens of the private_key_jwt client (needs the provider flag; otherwise those surfaces stay idle)
@@ -461,7 +476,7 @@ func RunC14(t *testing.T, spec kernel.Spec) *kernel.Outcome {
 				return fmt.Sprintf("advance %v", d)
 			}
 		})
-		o.Log = append([]string{fmt.Sprintf("config: router=%s pkjwt=%v requestobject=%v caps=%+v", w.Router, w.Conf.AuthMethodPrivateKeyJWT, w.Conf.RequestObjectSupported, w.Caps)}, o.Log...)
+		o.Log = append([]string{fmt.Sprintf("config: router=%s pkjwt=%v requestobject=%v caps=%+v issuers=%v (%s)", w.Router, w.Conf.AuthMethodPrivateKeyJWT, w.Conf.RequestObjectSupported, w.Caps, w.Issuers, w.IssuerMode)}, o.Log...)
 		o.Sample = map[string]any{"seed": spec.Seed, "router": w.Router, "steps": o.Trace}
 	})
 	o.Nontrivial = o.Probes["assertion-accepted"] > 0 && o.Probes["assertion-refused"] > 0
